@@ -20,7 +20,9 @@
 (*                                                                         *)
 (*  * Good(req, obs) = HijackExact, NeverLeaks, ErrorMeansNoOp, Faithful,  *)
 (*    RelayIdentity: what the property statement promises, written from    *)
-(*    the statement.  Where the statement is silent (GET/PUT/HEAD/... on a *)
+(*    the statement.  A pinning endpoint is recognised on the DECODED path *)
+(*    (percent-encoded spellings are the same endpoint).  Where the        *)
+(*    statement is silent (GET/PUT/HEAD/... on a                           *)
 (*    pinning endpoint, unknown `type` values, invalid add options) both   *)
 (*    behaviours are accepted.                                             *)
 (*                                                                         *)
@@ -38,7 +40,8 @@ Routes    == ArgRoutes \cup {"pin/update", "add", "repo/stat", "repo/gc"}
 
 \* Non-hijacked path classes (concretised by the driver, several per class)
 PassKinds == {"nm-suffix", "nm-version", "nm-parent", "nm-trailing", "nm-deep", "nm-prefix",
-              "nm-case", "api-other", "root", "escaped"}
+              "nm-case", "nm-encoded", "api-other", "root", "escaped"}
+\* "nm-encoded": percent-encoded spellings that DECODE to a near-miss (must be relayed, escaped path preserved)
 QueryKinds == {"none", "simple", "arglike", "weird"}
 BodyKinds  == {"none", "text", "bin", "mp", "large", "chunked"}
 
@@ -80,7 +83,12 @@ GCKeys    == {"g1", "g2", "g3"}
 Blank == [world |-> "w0", method |-> "POST", pathk |-> "route", route |-> NA, style |-> NA, arg |-> NA, arg2 |-> NA,
           type |-> NA, unpin |-> NA, body |-> NA, onlyhash |-> NA, pin |-> NA, layout |-> NA,
           trickle |-> NA, chunker |-> NA, cidv |-> NA, raw |-> NA, name |-> NA, repl |-> NA,
-          streamerr |-> NA, qk |-> NA, bk |-> NA]
+          streamerr |-> NA, qk |-> NA, bk |-> NA, enc |-> NA]
+\* enc: how the fixed part of a pinning endpoint's path is spelled on the wire: "-" plain, "letter" = one or
+\* more letters percent-encoded (/api/v0/pin/%61dd), "slash" = one or more separating slashes as %2F
+\* (/api/v0/pin%2Frm, /api/v0/pin/add%2F<cid>), "both".  The request is the same request: pathk = "route"
+\* says what the path DECODES to, which is what go-ipfs's own router (and RFC 3986 for letters) sees.
+Encodings == {"letter", "slash", "both"}
 
 StyleOK(s, a) == s = "query" \/ a \in SlashArgs
 
@@ -119,7 +127,11 @@ HijackShaped ==
 OtherWorlds ==
     {[r EXCEPT !.world = w] : w \in {"w1", "w2"},
         r \in {x \in HijackShaped : x.method = "POST" /\ (x.route = "add" => x \in AddLiteReqs)}}
-Requests == HijackShaped \cup OtherWorlds \cup PassReqs(PassKinds)
+\* percent-encoded spellings: every route, style, argument class and method (add: reduced option set)
+EncodedSpellings ==
+    {[r EXCEPT !.enc = e] : e \in Encodings,
+        r \in {x \in HijackShaped : (x.route = "add" => x \in AddLiteReqs) /\ x.type # "bogus"}}
+Requests == HijackShaped \cup OtherWorlds \cup EncodedSpellings \cup PassReqs(PassKinds)
 \* Paths that are not in canonical form ("//", "/./", "/../"): kept apart, see KNOWN finding.
 UncleanRequests == PassReqs({"unclean"})
 
